@@ -81,3 +81,31 @@ def _replay(model, contract):
 
 for _c in CONTRACTS.values():
     _c["replay_hook"] = _replay
+
+
+# ---- duplicate / reserved names (C18: "undefined or duplicate names"): bodies of the two loops of ProjectFramework._validate_names, for a
+# name that was or was not seen before; the reserved-symbol and keyword tests are ghost Booleans
+def _env_names(seen):
+    def make(it):
+        from pyvc.interp import PyObjV
+        from pyvc import source
+
+        return {"self": PyObjV("ProjectFramework", source.load("framework"), {"name": "fw"}), "name": "x" if seen else "y", "tmp": {"x"}}
+
+    return make
+
+
+for _seen in (True, False):
+    _tag = "seen_before" if _seen else "new"
+    CONTRACTS["framework:ProjectFramework._validate_names#code_name_%s" % _tag] = dict(
+        schema=schema, fragment={"iter": "code_names"}, make_env=_env_names(_seen),
+        ghost_params={"HAS_RESERVED_SYMBOL": "bool", "IS_KEYWORD": "bool"},
+        stubs={"FS.RESERVED_SYMBOLS.intersection(name)": "HAS_RESERVED_SYMBOL", "name in FS.RESERVED_KEYWORDS": "IS_KEYWORD"},
+        raises={"InvalidFramework": "True" if _seen else "HAS_RESERVED_SYMBOL or IS_KEYWORD"}, raises_props=["C18"],
+        ensures=[("C18.an_accepted_code_name_is_new_unreserved_and_now_recorded", "not HAS_RESERVED_SYMBOL and not IS_KEYWORD and %s and 'y' in tmp and 'x' in tmp and len(tmp) == 2" % ("False" if _seen else "True"))],
+        defined_props=["C18"])
+    CONTRACTS["framework:ProjectFramework._validate_names#display_name_%s" % _tag] = dict(
+        schema=schema, fragment={"iter": "display_names"}, make_env=_env_names(_seen),
+        raises={"InvalidFramework": "True" if _seen else "False"}, raises_props=["C18"],
+        ensures=[("C18.an_accepted_display_name_is_new_and_now_recorded", "%s and 'y' in tmp and len(tmp) == 2" % ("False" if _seen else "True"))],
+        defined_props=["C18"])
